@@ -4,6 +4,7 @@
 package main
 
 import (
+	"encoding/json"
 	"flag"
 	"fmt"
 	"os"
@@ -25,6 +26,7 @@ func main() {
 	verif := flag.String("verif", "", "verif directory (default: directory above the binary)")
 	only := flag.String("only", "", "print only the obligation rule|key (replay)")
 	list := flag.Bool("list", false, "list all obligations")
+	replay := flag.String("replay", "", "replay file written for a violation (out/replay/<id>/*.json): re-decide that one obligation on the current tree")
 	dump := flag.String("dump-anchors", "", "write the anchor fingerprint table of the repository to this file and exit")
 	flag.Parse()
 	if *tier != "thorough" {
@@ -100,6 +102,11 @@ func main() {
 				}
 			}
 		}
+		if *replay != "" {
+			// re-decide the one obligation the replay file names; evidence and replay files are left alone
+			code = replayOne(l, *replay)
+			return
+		}
 		cmd := "./bin/vcheck " + strings.Join(os.Args[1:], " ")
 		code = l.Finish(*verif, start, seed, cmd)
 	}()
@@ -168,4 +175,48 @@ func runMany(list, tier, repo, verif string, seed int64) int {
 		}
 	}
 	return worst
+}
+
+// replayOne looks up the obligation a replay file names (rule and key) in the
+// freshly computed ledger: exit 1 with a VIOLATION line if it is still
+// violated or undecided, 0 if it is discharged now (or no longer exists).
+func replayOne(l *core.Ledger, path string) int {
+	b, err := os.ReadFile(path)
+	if err != nil {
+		fmt.Fprintf(os.Stderr, "INFRASTRUCTURE: cannot read replay file: %v\n", err)
+		return 2
+	}
+	var rec struct {
+		Property, Rule, Key string
+	}
+	if err := json.Unmarshal(b, &rec); err != nil || rec.Rule == "" {
+		fmt.Fprintf(os.Stderr, "INFRASTRUCTURE: %s is not a replay file of vcheck\n", path)
+		return 2
+	}
+	if rec.Property != "" && rec.Property != l.Prop {
+		fmt.Fprintf(os.Stderr, "INFRASTRUCTURE: replay file is for %s, not %s\n", rec.Property, l.Prop)
+		return 2
+	}
+	found := false
+	code := 0
+	for _, o := range l.Obls {
+		if o.Rule != rec.Rule || o.Key != rec.Key {
+			continue
+		}
+		found = true
+		fmt.Printf("%-11s %-18s %s  %s\n      %s\n", o.Status, o.Rule, o.Key, o.Pos, o.Detail)
+		for _, t := range o.Trace {
+			fmt.Println("        " + t)
+		}
+		if o.Status != core.Discharged {
+			code = 1
+		}
+	}
+	if !found {
+		fmt.Printf("obligation %s|%s is not raised on this tree any more\n", rec.Rule, rec.Key)
+	}
+	if code == 1 {
+		fmt.Printf("VIOLATION property=%s replay=%s\n", l.Prop, path)
+	}
+	return code
 }
